@@ -1,1 +1,193 @@
-harnesses! {}
+//! C11 — line_intersection classifies and locates segment crossings exactly.
+//!
+//! `f32` + S-ORIENT (small-grid exact model of robust::orient2d).  Segment end points on G(n);
+//! every +,-,* of the algorithm is exact there, only the final division rounds.
+use crate::gen::*;
+use crate::oracle::*;
+use crate::Src;
+use geo::line_intersection::{line_intersection, LineIntersection};
+use geo::Intersects;
+use geo_types::{Coord, Line};
+
+fn lex_min(a: P, b: P) -> P {
+    if a <= b {
+        a
+    } else {
+        b
+    }
+}
+fn lex_max(a: P, b: P) -> P {
+    if a >= b {
+        a
+    } else {
+        b
+    }
+}
+
+#[derive(PartialEq, Clone, Copy)]
+pub enum Kind {
+    None,
+    Proper,
+    Improper(P),
+    Overlap(P, P),
+}
+
+/// exact classification of two NON-degenerate segments
+pub fn classify(a: P, b: P, c: P, d: P) -> Kind {
+    if !segs_share_point(a, b, c, d) {
+        return Kind::None;
+    }
+    let (o1, o2, o3, o4) = (orient(a, b, c), orient(a, b, d), orient(c, d, a), orient(c, d, b));
+    if o1 == 0 && o2 == 0 && o3 == 0 && o4 == 0 {
+        let lo = lex_max(lex_min(a, b), lex_min(c, d));
+        let hi = lex_min(lex_max(a, b), lex_max(c, d));
+        return if lo == hi { Kind::Improper(lo) } else { Kind::Overlap(lo, hi) };
+    }
+    if o1 * o2 < 0 && o3 * o4 < 0 {
+        return Kind::Proper;
+    }
+    // a unique shared point that is an end point of one of them
+    if on_segment(a, c, d) {
+        Kind::Improper(a)
+    } else if on_segment(b, c, d) {
+        Kind::Improper(b)
+    } else if on_segment(c, a, b) {
+        Kind::Improper(c)
+    } else {
+        Kind::Improper(d)
+    }
+}
+
+fn segs<S: Src>(s: &mut S, n: i8, x0: Option<i8>) -> (P, P, P, P) {
+    let a = match x0 {
+        Some(x) => gp_x(s, x, x, n),
+        None => gp(s, n),
+    };
+    let (b, c, d) = (gp(s, n), gp(s, n), gp(s, n));
+    vassume!(a != b && c != d);
+    (a, b, c, d)
+}
+
+/// classification + payload for non-degenerate segments
+pub fn classify_h<S: Src>(s: &mut S, n: i8, x0: Option<i8>) {
+    let (a, b, c, d) = segs(s, n, x0);
+    let (p, q) = (line_f(a, b), line_f(c, d));
+    let got = line_intersection(p, q);
+    let want = classify(a, b, c, d);
+    match want {
+        Kind::None => assert!(got.is_none(), "line_intersection reports a point for segments that share none"),
+        Kind::Proper => {
+            assert!(matches!(got, Some(LineIntersection::SinglePoint { is_proper: true, .. })), "crossing interior to both segments is not reported as a proper SinglePoint");
+        }
+        Kind::Improper(e) => match got {
+            Some(LineIntersection::SinglePoint { intersection, is_proper }) => {
+                assert!(!is_proper, "a touching point is flagged proper");
+                assert!(intersection == cf(e), "improper intersection is not bit-identical to the end point involved");
+            }
+            _ => assert!(false, "segments touching in exactly one point are not reported as an improper SinglePoint"),
+        },
+        Kind::Overlap(lo, hi) => match got {
+            Some(LineIntersection::Collinear { intersection }) => {
+                let (s0, e0) = (intersection.start, intersection.end);
+                assert!((s0 == cf(lo) && e0 == cf(hi)) || (s0 == cf(hi) && e0 == cf(lo)), "Collinear payload is not the exact shared sub-segment");
+            }
+            _ => assert!(false, "collinear segments overlapping in more than a point are not reported as Collinear"),
+        },
+    }
+    assert!(got.is_some() == p.intersects(&q), "line_intersection disagrees with intersects");
+    vcover!(matches!(want, Kind::Overlap(..)), "collinear overlap");
+    vcover!(matches!(want, Kind::Improper(_)) && orient(a, b, c) == 0 && orient(a, b, d) == 0, "collinear segments abutting in one point");
+    vcover!(matches!(want, Kind::Improper(_)) && orient(a, b, c) != 0 && in_open_segment(c, a, b), "T-junction");
+    vcover!(want == Kind::Proper, "proper crossing");
+    vcover!(want == Kind::None && orient(a, b, c) == 0 && orient(a, b, d) == 0, "collinear disjoint");
+}
+
+/// proper point: inside both bounding boxes and close to the exact crossing
+pub fn proper_point<S: Src>(s: &mut S, n: i8, x0: Option<i8>) {
+    let (a, b, c, d) = segs(s, n, x0);
+    vassume!(classify(a, b, c, d) == Kind::Proper);
+    let (p, q) = (line_f(a, b), line_f(c, d));
+    let got = line_intersection(p, q);
+    match got {
+        Some(LineIntersection::SinglePoint { intersection: i, is_proper: true }) => {
+            let inb = |v: f32, u: W, w: W| v >= (u.min(w) as f32) && v <= (u.max(w) as f32);
+            assert!(inb(i.x, a.0, b.0) && inb(i.y, a.1, b.1), "proper point outside the first segment's bounding box");
+            assert!(inb(i.x, c.0, d.0) && inb(i.y, c.1, d.1), "proper point outside the second segment's bounding box");
+            // exact crossing: a + t (b-a), t = N/D
+            let dd = (b.0 - a.0) * (d.1 - c.1) - (b.1 - a.1) * (d.0 - c.0);
+            let nn = (c.0 - a.0) * (d.1 - c.1) - (c.1 - a.1) * (d.0 - c.0);
+            let xn = (a.0 * dd + nn * (b.0 - a.0)) as f32;
+            let yn = (a.1 * dd + nn * (b.1 - a.1)) as f32;
+            let df = dd as f32;
+            let tol = 0.0001f32 * df.abs();
+            assert!((i.x * df - xn).abs() <= tol, "proper point x is not within tolerance of the exact crossing");
+            assert!((i.y * df - yn).abs() <= tol, "proper point y is not within tolerance of the exact crossing");
+        }
+        _ => assert!(false, "proper crossing not reported as such"),
+    }
+}
+
+fn same_up_to_direction(x: Option<LineIntersection<f32>>, y: Option<LineIntersection<f32>>) -> bool {
+    match (x, y) {
+        (None, None) => true,
+        (Some(LineIntersection::SinglePoint { intersection: i1, is_proper: p1 }), Some(LineIntersection::SinglePoint { intersection: i2, is_proper: p2 })) => {
+            p1 == p2 && (p1 || i1 == i2)
+        }
+        (Some(LineIntersection::Collinear { intersection: l1 }), Some(LineIntersection::Collinear { intersection: l2 })) => {
+            (l1.start == l2.start && l1.end == l2.end) || (l1.start == l2.end && l1.end == l2.start)
+        }
+        _ => false,
+    }
+}
+
+/// order independence of the classification, end point and overlap
+pub fn order_h<S: Src>(s: &mut S, n: i8, x0: Option<i8>) {
+    let (a, b, c, d) = segs(s, n, x0);
+    let (p, q) = (line_f(a, b), line_f(c, d));
+    let r1 = line_intersection(p, q);
+    let r2 = line_intersection(q, p);
+    assert!(same_up_to_direction(r1, r2), "classification / end point / overlap depends on the order of the segments");
+    let r3 = line_intersection(Line::new(p.end, p.start), q);
+    assert!(same_up_to_direction(r1, r3), "classification / end point / overlap depends on the direction of a segment");
+    vcover!(matches!(r1, Some(LineIntersection::Collinear { .. })), "collinear overlap");
+}
+
+/// zero-length operands: None iff no shared point, agrees with intersects, and whatever is
+/// returned consists of input end points
+pub fn degenerate_h<S: Src>(s: &mut S, n: i8) {
+    let (a, c, d) = (gp(s, n), gp(s, n), gp(s, n));
+    let first = s.bool();
+    let (p, q) = if first { (line_f(a, a), line_f(c, d)) } else { (line_f(c, d), line_f(a, a)) };
+    let got = line_intersection(p, q);
+    let share = on_segment(a, c, d);
+    assert!(got.is_some() == share, "zero-length segment: Some/None differs from 'share a point'");
+    assert!(got.is_some() == p.intersects(&q), "zero-length segment: disagrees with intersects");
+    let pt = |x: Coord<f32>| x == cf(a);
+    match got {
+        None => {}
+        Some(LineIntersection::SinglePoint { intersection, .. }) => assert!(pt(intersection), "zero-length segment: reported point is not the point"),
+        Some(LineIntersection::Collinear { intersection }) => assert!(pt(intersection.start) && pt(intersection.end), "zero-length segment: reported overlap is not the point"),
+    }
+    vcover!(share && c != d && a != c && a != d, "point strictly inside the other segment");
+    vcover!(share && c == d, "two equal points");
+}
+
+harnesses! {
+    #[kani::stub(robust::orient2d, crate::stubs::orient2d_small)] #[kani::stub(f32::hypot, crate::stubs::hypot_f32)] fn c11_classify_g1(s) { classify_h(s, 1, None) }
+    #[kani::stub(robust::orient2d, crate::stubs::orient2d_small)] #[kani::stub(f32::hypot, crate::stubs::hypot_f32)] fn c11_classify_g2_x0(s) { classify_h(s, 2, Some(-2)) }
+    #[kani::stub(robust::orient2d, crate::stubs::orient2d_small)] #[kani::stub(f32::hypot, crate::stubs::hypot_f32)] fn c11_classify_g2_x1(s) { classify_h(s, 2, Some(-1)) }
+    #[kani::stub(robust::orient2d, crate::stubs::orient2d_small)] #[kani::stub(f32::hypot, crate::stubs::hypot_f32)] fn c11_classify_g2_x2(s) { classify_h(s, 2, Some(0)) }
+    #[kani::stub(robust::orient2d, crate::stubs::orient2d_small)] #[kani::stub(f32::hypot, crate::stubs::hypot_f32)] fn c11_classify_g2_x3(s) { classify_h(s, 2, Some(1)) }
+    #[kani::stub(robust::orient2d, crate::stubs::orient2d_small)] #[kani::stub(f32::hypot, crate::stubs::hypot_f32)] fn c11_classify_g2_x4(s) { classify_h(s, 2, Some(2)) }
+    #[kani::stub(robust::orient2d, crate::stubs::orient2d_small)] #[kani::stub(f32::hypot, crate::stubs::hypot_f32)] fn c11_proper_point_g1(s) { proper_point(s, 1, None) }
+    #[kani::stub(robust::orient2d, crate::stubs::orient2d_small)] #[kani::stub(f32::hypot, crate::stubs::hypot_f32)] fn c11_proper_point_g2_x0(s) { proper_point(s, 2, Some(-2)) }
+    #[kani::stub(robust::orient2d, crate::stubs::orient2d_small)] #[kani::stub(f32::hypot, crate::stubs::hypot_f32)] fn c11_proper_point_g2_x2(s) { proper_point(s, 2, Some(0)) }
+    #[kani::stub(robust::orient2d, crate::stubs::orient2d_small)] #[kani::stub(f32::hypot, crate::stubs::hypot_f32)] fn c11_order_g1(s) { order_h(s, 1, None) }
+    #[kani::stub(robust::orient2d, crate::stubs::orient2d_small)] #[kani::stub(f32::hypot, crate::stubs::hypot_f32)] fn c11_order_g2_x0(s) { order_h(s, 2, Some(-2)) }
+    #[kani::stub(robust::orient2d, crate::stubs::orient2d_small)] #[kani::stub(f32::hypot, crate::stubs::hypot_f32)] fn c11_order_g2_x2(s) { order_h(s, 2, Some(0)) }
+    #[kani::stub(robust::orient2d, crate::stubs::orient2d_small)] #[kani::stub(f32::hypot, crate::stubs::hypot_f32)] fn c11_degenerate_g2(s) { degenerate_h(s, 2) }
+    #[kani::stub(robust::orient2d, crate::stubs::orient2d_small)] #[kani::stub(f32::hypot, crate::stubs::hypot_f32)] fn c11_sanity_must_fail(s) {
+        classify_h(s, 1, None);
+        assert!(false, "sanity twin reached its end");
+    }
+}
